@@ -24,10 +24,12 @@ import (
 	"verifharness/rig"
 
 	"github.com/ipfs/ipfs-cluster/api"
+	"github.com/ipfs/ipfs-cluster/monitor/pubsubmon"
 
 	cid "github.com/ipfs/go-cid"
 	cbor "github.com/ipfs/go-ipld-cbor"
 	peer "github.com/libp2p/go-libp2p-core/peer"
+	pubsub "github.com/libp2p/go-libp2p-pubsub"
 	mh "github.com/multiformats/go-multihash"
 	"golang.org/x/crypto/blake2b"
 )
@@ -40,12 +42,14 @@ type worldT struct {
 	MS        map[string]string   `json:"ms"`
 	Blocks    []json.RawMessage   `json:"blocks"`
 	Rank      map[string][]string `json:"rank"`
+	GetFail   []string            `json:"getfail"` // CIDs whose State.Get fails with a read error during the episode
 }
 
 type epT struct {
-	Kind   string `json:"kind"`
-	Failed string `json:"failed"`
-	At     string `json:"at"`
+	Kind    string `json:"kind"`
+	Failed  string `json:"failed"`
+	Failed2 string `json:"failed2"` // kind "remove2": the peer removed right after Failed
+	At      string `json:"at"`
 }
 
 type episodeT struct {
@@ -96,9 +100,12 @@ type recT struct {
 type pools struct {
 	gate     *rig.ListGate
 	getGate  *rig.ListGate
+	faults   *rig.FaultDatastore
 	shared   *rig.SharedState
 	normal   []*rig.Rig
 	follower []*rig.Rig
+	realmon  []*rig.Rig // rigs whose PeerMonitor is the REAL pubsubmon.Monitor
+	mons     map[*rig.Rig]*pubsubmon.Monitor
 	rng      *rand.Rand
 	barrier  int
 }
@@ -108,7 +115,41 @@ func (p *pools) get(kind string, i int) (*rig.Rig, error) {
 	if kind == "follower" {
 		lst = &p.follower
 	}
+	if kind == "realmon" {
+		lst = &p.realmon
+	}
 	for len(*lst) <= i {
+		if kind == "realmon" {
+			// real pubsubmon over a real gossipsub on the rig's host; its peerset callback is the consensus
+			// component's Peers(), exactly as ipfs-cluster-service wires it
+			ctx := context.Background()
+			h, err := rig.NewHost()
+			if err != nil {
+				return nil, err
+			}
+			ps, err := pubsub.NewGossipSub(ctx, h)
+			if err != nil {
+				return nil, err
+			}
+			cfg := &pubsubmon.Config{}
+			cfg.Default()
+			cfg.CheckInterval = time.Hour // no alerts of its own
+			peersOf := &rig.FakeConsensus{ID: h.ID(), S: p.shared}
+			mon, err := pubsubmon.New(ctx, cfg, ps, peersOf.Peers)
+			if err != nil {
+				return nil, err
+			}
+			r, err := rig.NewRig(rig.Opts{Host: h, Shared: p.shared, Monitor: mon, RplMin: -1, RplMax: -1})
+			if err != nil {
+				return nil, err
+			}
+			if p.mons == nil {
+				p.mons = map[*rig.Rig]*pubsubmon.Monitor{}
+			}
+			p.mons[r] = mon
+			*lst = append(*lst, r)
+			continue
+		}
 		r, err := rig.NewRig(rig.Opts{Shared: p.shared, Follower: kind == "follower", RplMin: -1, RplMax: -1})
 		if err != nil {
 			return nil, err
@@ -119,7 +160,7 @@ func (p *pools) get(kind string, i int) (*rig.Rig, error) {
 }
 
 func (p *pools) close() {
-	for _, r := range append(p.normal, p.follower...) {
+	for _, r := range append(append(p.normal, p.follower...), p.realmon...) {
 		r.Close()
 	}
 }
@@ -177,6 +218,8 @@ func runEpisode(p *pools, e *episodeT, res *hx.Result) (*recT, error) {
 		var r *rig.Rig
 		var err error
 		switch {
+		case e.Ep.Kind == "remove2":
+			r, err = p.get("realmon", i)
 		case isF[m]:
 			r, err = p.get("follower", nf)
 			nf++
@@ -210,6 +253,7 @@ func runEpisode(p *pools, e *episodeT, res *hx.Result) (*recT, error) {
 		memberIDs = append(memberIDs, ids[m])
 	}
 	p.shared.SetPeers(memberIDs)
+	p.faults.ClearTags()
 	p.shared.Reset()
 	// blocks (cluster-DAG -> shard links), metrics, trust on every member
 	blocks := map[string][]byte{}
@@ -232,7 +276,26 @@ func runEpisode(p *pools, e *episodeT, res *hx.Result) (*recT, error) {
 		}
 		blocks[names.Cid(d).String()] = node.RawData()
 	}
+	mname := fmt.Sprintf("freespace-%d", e.ID)
 	for _, r := range rigs {
+		if mon := p.mons[r]; mon != nil {
+			// a fresh metric name per episode: what earlier episodes logged is invisible
+			r.Informer.SetName(mname)
+			r.IPFS.Blocks = blocks
+			r.Cons.Trusted = func(q peer.ID) bool { return !followerID[q] }
+			for _, m := range e.W.Peers {
+				v, ok := metricValue[e.W.MS[m]]
+				if !ok {
+					continue
+				}
+				mt := &api.Metric{Name: mname, Peer: ids[m], Value: v, Valid: true}
+				mt.SetTTL(time.Hour)
+				if err := mon.LogMetric(ctx, mt); err != nil {
+					return nil, err
+				}
+			}
+			continue
+		}
 		r.IPFS.Blocks = blocks
 		r.Cons.Trusted = func(q peer.ID) bool { return !followerID[q] }
 		var ms []*api.Metric
@@ -248,10 +311,15 @@ func runEpisode(p *pools, e *episodeT, res *hx.Result) (*recT, error) {
 		r.Mon.Set(r.Informer.Name(), ms)
 	}
 	for _, en := range e.Ps0 {
+		p.faults.Tag(en.Cid)
 		if err := p.shared.State.Add(ctx, proj.Pin(en)); err != nil {
 			return nil, err
 		}
 	}
+	if e.W.GetFail == nil {
+		e.W.GetFail = []string{}
+	}
+	defer p.faults.FailGets(nil)
 	p.shared.TakeCalls()
 	rec := &recT{ID: e.ID, Src: e.Src, W: e.W, Ep: e.Ep, Events: []eventT{}, Acts: []actT{}}
 	rec.W.Rank = map[string][]string{}
@@ -264,6 +332,7 @@ func runEpisode(p *pools, e *episodeT, res *hx.Result) (*recT, error) {
 		return sortedNames(ps, names)
 	}
 	rec.Ps0 = pins()
+	p.faults.FailGets(e.W.GetFail) // from here on State.Get of these CIDs fails (List and writes still work)
 	var all []rig.LogCall
 	split := func(ev *eventT) {
 		for _, c := range p.shared.TakeCalls() {
@@ -493,6 +562,21 @@ func runEpisode(p *pools, e *episodeT, res *hx.Result) (*recT, error) {
 		ev.Members2 = members()
 		split(&ev)
 		rec.Events = append(rec.Events, ev)
+	case "remove2":
+		for _, t := range []string{e.Ep.Failed, e.Ep.Failed2} {
+			ev := eventT{Peers: []string{}, Logs: map[string][][2]string{}, Seen: map[string]bool{}, Kind: "remove", At: e.Ep.At, Failed: t, Members: members(), Ps: pins(),
+				Log: [][2]string{}, Other: [][3]string{}}
+			cctx, cancel := context.WithTimeout(ctx, 60*time.Second)
+			err := rigs[e.Ep.At].Cluster.PeerRemove(cctx, ids[t])
+			cancel()
+			if err != nil {
+				ev.Err = err.Error()
+			}
+			ev.Ps2 = pins()
+			ev.Members2 = members()
+			split(&ev)
+			rec.Events = append(rec.Events, ev)
+		}
 	case "sync":
 		if concurrent {
 			if err := syncsAll(); err != nil {
@@ -535,7 +619,9 @@ func TestDriver(t *testing.T) {
 	if err != nil {
 		t.Fatal(err)
 	}
-	p := &pools{shared: rig.NewSharedState(), rng: rand.New(rand.NewSource(hx.Seed()))}
+	// the shared pinset is a REAL dsstate over a datastore whose reads can be made to fail
+	shared, faults := rig.NewFaultySharedState()
+	p := &pools{shared: shared, faults: faults, rng: rand.New(rand.NewSource(hx.Seed()))}
 	p.gate = p.shared.GateLists()
 	p.getGate = p.shared.GateGets()
 	p.getGate.Deadline = 250 * time.Millisecond
